@@ -103,11 +103,11 @@ theorem crdt_mwt_idem {a : Crdt} (s : Stamp) (ha : a.WF) :
     exact NSet.union_idem (h3 (k, u) (Crdt.mem_of_get hu)).1
   · rw [NMap.merge_idem ha (fun _ u _ => Lww.merge_idem u)]
 
-theorem optmax_idem (x : Option Nat) : optMerge Nat.max x x = x :=
+theorem optmax_idem (x : Option Nat) : optMerge Max.max x x = x :=
   NMap.optMerge_idem (fun u _ => Nat.max_self u)
 
 theorem optvc_idem {x : Option (NMap Nat)} (h : ∀ m, x = some m → NMap.WF m) :
-    optMerge (NMap.merge Nat.max) x x = x :=
+    optMerge (NMap.merge Max.max) x x = x :=
   NMap.optMerge_idem (fun u hu => Crdt.cmerge_idem (h u hu))
 
 /-- **C07 (idempotence)**, every value, every CRDT kind. -/
@@ -169,12 +169,12 @@ theorem crdt_mwt_comm {a b : Crdt} {sa sb : Stamp} (ha : a.WF) (hb : b.WF)
     · exact absurd hts h
     · exact h
 
-theorem optmax_comm (x y : Option Nat) : optMerge Nat.max x y = optMerge Nat.max y x :=
+theorem optmax_comm (x y : Option Nat) : optMerge Max.max x y = optMerge Max.max y x :=
   NMap.optMerge_comm (fun u v _ _ => Nat.max_comm u v)
 
 theorem optvc_comm {x y : Option (NMap Nat)} (hx : ∀ m, x = some m → NMap.WF m)
     (hy : ∀ m, y = some m → NMap.WF m) :
-    optMerge (NMap.merge Nat.max) x y = optMerge (NMap.merge Nat.max) y x :=
+    optMerge (NMap.merge Max.max) x y = optMerge (NMap.merge Max.max) y x :=
   NMap.optMerge_comm (fun u v hu hv => Crdt.cmerge_comm (hx u hu) (hy v hv))
 
 /-- **C07 (commutativity)**, all kinds incl. type mismatches, tombstones, equal times from
@@ -190,13 +190,13 @@ theorem rv_merge_comm : C07_comm := by
 /-! ## associativity (same kind) -/
 
 theorem optmax_assoc (x y z : Option Nat) :
-    optMerge Nat.max x (optMerge Nat.max y z) = optMerge Nat.max (optMerge Nat.max x y) z :=
+    optMerge Max.max x (optMerge Max.max y z) = optMerge Max.max (optMerge Max.max x y) z :=
   NMap.optMerge_assoc (fun u v w _ _ _ => (Nat.max_assoc u v w).symm)
 
 theorem optvc_assoc {x y z : Option (NMap Nat)} (hx : ∀ m, x = some m → NMap.WF m)
     (hy : ∀ m, y = some m → NMap.WF m) (hz : ∀ m, z = some m → NMap.WF m) :
-    optMerge (NMap.merge Nat.max) x (optMerge (NMap.merge Nat.max) y z)
-      = optMerge (NMap.merge Nat.max) (optMerge (NMap.merge Nat.max) x y) z :=
+    optMerge (NMap.merge Max.max) x (optMerge (NMap.merge Max.max) y z)
+      = optMerge (NMap.merge Max.max) (optMerge (NMap.merge Max.max) x y) z :=
   NMap.optMerge_assoc (fun u v w hu hv hw => Crdt.cmerge_assoc (hx u hu) (hy v hv) (hz w hw))
 
 theorem crdt_mwt_assoc_samekind {a b c : Crdt} (sa sb sc sbc sab : Stamp)
